@@ -74,8 +74,9 @@ def d7(**kw):
         s.submit(1, size=20)
     s.tick(1, 11)                 # appended (queue drained at the end of the tick)
     s.tick(1, 11)                 # three batches of two are sent
-    sc.flush(1, 2)                # 2 stores 3..8 and sends three success replies
-    s.deliver(2, 1)               # 1 consumes only the first reply
+    sc.flush(1, 2)                # 2 stores 3..8 and sends its replies (one for the heartbeat, three for the batches)
+    s.deliver(2, 1)               # 1 consumes the heartbeat reply
+    s.deliver(2, 1)               # ... and only the first batch reply: next index rolled back to 5
     s.tick(1, 11)                 # re-sends from its rolled back next index
     sc.flush(2, 1)                # the other two replies: match index = 8
     s.deliver(1, 2)               # the re-sent AE(4,[5,6]) reaches 2
@@ -144,7 +145,11 @@ def d17(**kw):
     for b in (1, 2):
         s.connect(3, b)
         s.connect(b, 3)
-    sc.settle([3, 1, 2], 3)
+    for _ in range(4):
+        s.tick(3, 11)
+        for b in (1, 2):
+            sc.flush(3, b)
+            sc.flush(b, 3)
     sc.isolate(3)
     for b in (4, 5):
         s.connect(1, b)
@@ -153,9 +158,10 @@ def d17(**kw):
     s.submit(1, size=20)
     s.tick(1, 11)
     s.tick(1, 11)
-    sc.flush(1, 4)
+    sc.flush(1, 4)                # the new entries reach 4 only
+    sc.flush(4, 1)
     sc.flush(2, 1)                # the held replies of term 1
-    s.tick(1, 11)
+    s.tick(1, 11)                 # without the repair: committed with holders {1, 4} of 5 voters
     sc.settle([1, 4, 5], 2)
     return sc.rec
 
@@ -262,8 +268,124 @@ def forwarded(**kw):
     return sc.rec
 
 
+def restart_double_vote(**kw):
+    """KF-C07-1: a journaled voter votes, is killed and restarted, and votes again in the same term"""
+    sc = Script(base_cfg([1, 2, 3], journal='file'), **kw)
+    s = sc.s
+    s.boot()
+    cfg = sc.rec.cfg
+    s.tick(1, cfg['tmin'] + cfg['tspan'] + 1)      # 1 is candidate of term 1
+    sc.flush(1, 3)                                 # 3 grants; 2 does not hear from 1
+    sc.flush(3, 1)                                 # 1 is leader of term 1 (votes of 1 and 3)
+    s.kill(3)
+    s.restart(3)                                   # term 0, vote forgotten
+    s.tick(2, cfg['tmin'] + cfg['tspan'] + 1)      # 2 is candidate of term 1
+    sc.flush(2, 3)
+    sc.flush(3, 2)                                 # 2 is leader of term 1 as well
+    return sc.rec
+
+
+def d18(**kw):
+    """KF-C06-D18: journal file without dump file, in-memory compaction, restart"""
+    sc = Script(base_cfg([1], journal='file'), **kw)
+    s = sc.s
+    s.boot()
+    sc.elect(1, [])
+    for _ in range(5):
+        s.submit(1, size=10)
+    sc.settle([1], 3)
+    sc.rec.do(('compact', 1))
+    sc.settle([1], 3)
+    s.kill(1)
+    s.restart(1)
+    sc.settle([1], 4)
+    return sc.rec
+
+
+def d10(**kw):
+    """regression (fixed D10): killed between writing the dump and trimming the journal"""
+    sc = Script(base_cfg([1, 2], journal='file', dump='file'), **kw)
+    s = sc.s
+    s.boot()
+    sc.elect(1)
+    sc.settle([1, 2], 2)
+    for _ in range(4):
+        s.submit(1, size=10)
+    sc.settle([1, 2], 4)
+    sc.rec.do(('compact', 2))
+    s.tick(2, 11)                  # dump written at the applied position; the trim would happen on the next tick
+    for _ in range(3):
+        s.submit(1, size=10)
+    s.tick(1, 11)
+    s.tick(1, 11)
+    sc.flush(1, 2)                 # 2 stores and acknowledges three more entries without ticking
+    sc.flush(2, 1)
+    s.tick(1, 11)                  # committed on 2's word
+    s.kill(2)
+    s.restart(2)
+    sc.settle([1, 2], 6)
+    return sc.rec
+
+
+def d19(**kw):
+    """regression (fixed D19): drop + reconnect between two leader ticks during a chunked snapshot transfer, dump files"""
+    sc = Script(base_cfg([1, 2, 3], chunk=32, dump='file', journal='file'), **kw)
+    s = sc.s
+    s.boot()
+    sc.elect(1)
+    sc.settle([1, 2, 3], 2)
+    s.submit(1, size=20)
+    sc.settle([1, 2, 3], 3)
+    sc.rec.do(('compact', 3))
+    sc.settle([1, 2, 3], 3)         # 3 has a good dump
+    sc.isolate(3)
+    for _ in range(6):
+        s.submit(1, size=20)
+    sc.settle([1, 2], 4)
+    sc.rec.do(('compact', 1))
+    sc.settle([1, 2], 3)
+    sc.join(3)
+    s.tick(1, 11, budget=2)         # the send loop is cut by the clock after a few chunks
+    s.deliver(1, 3)                 # 3 receives the first chunk only
+    s.drop(1, 3)
+    s.drop(3, 1)
+    s.connect(1, 3)
+    s.connect(3, 1)
+    sc.settle([1, 2, 3], 8)
+    return sc.rec
+
+
+def d6(**kw):
+    """KF-C08-1 at the node level: killed inside the journal head drop that follows a compaction"""
+    sc = Script(base_cfg([1, 2], journal='file', dump='file'), **kw)
+    s = sc.s
+    s.boot()
+    sc.elect(1)
+    sc.settle([1, 2], 2)
+    for _ in range(5):
+        s.submit(1, size=10)
+    sc.settle([1, 2], 4)
+    sc.rec.do(('compact', 2))
+    s.tick(2, 11)                  # dump written
+    for _ in range(2):
+        s.submit(1, size=10)
+    s.tick(1, 11)
+    s.tick(1, 11)
+    sc.flush(1, 2)
+    sc.flush(2, 1)
+    s.clock[2] += 11
+    sc.rec.do(('tickkill', 2, s.clock[2], 3, 1001))   # dies after the first write of clear + re-append
+    if 2 not in sc.sim.nodes:
+        s.alive.discard(2)
+        s.drop(1, 2)
+        s.restart(2)
+    sc.settle([1, 2], 6)
+    return sc.rec
+
+
 SCENARIOS = {'d7': d7, 'd8': d8, 'd17': d17, 'd16': d16, 'd1': d1, 'd20': d20,
-             'snapshot_catchup': snapshot_catchup, 'forwarded': forwarded}
+             'snapshot_catchup': snapshot_catchup, 'forwarded': forwarded,
+             'restart_double_vote': restart_double_vote, 'd18': d18, 'd10': d10, 'd19': d19, 'd6': d6}
 NAMES = sorted(SCENARIOS)
 
 
